@@ -1,4 +1,1 @@
-import OidcModel.Go
-import OidcModel.Model.Token
-import OidcModel.Model.KeySet
-import OidcModel.Generated.RPVerifier
+import OidcModel.Proofs.C01
